@@ -17,6 +17,8 @@
                  | `:`                         only where the parenthesis depth is not 0
                  | `::`..  then a plain char   two or more colons, only at depth 0 (`a::before`)
                  | `/`                         followed in its run by a lexeme not starting with `*`
+   A delimiting `:` (the one of a declaration, those of a selector) stands at depth 0 and the run
+   after it does not begin with `::` unless a gap separates them (`a:::b` is read differently).
 
    `render` writes the text, `tree` lays the sheet out as the offset tree of CssTree.v (the
    ranges a reader of the statement expects: a declaration's name and value are its runs,
@@ -27,8 +29,9 @@
    What the grammar deliberately leaves out (the scanner treats it differently, see the listed
    finding for C10): `;`, `{`, `}` inside parentheses outside strings and comments -- these
    characters are no lexeme of a run, so a parenthesised expression of this grammar is free of
-   them; a `/` at the end of a run or in front of `*`; a single `:` at depth 0 inside a value; a declaration
-   whose `;` is missing; an empty name, value or selector.
+   them; a `/` at the end of a run or in front of `*`; a single `:` at depth 0 inside a name or
+   value; a declaration whose `;` is missing; an empty name, value or selector; strings and
+   comments that are not closed.
 
    Definitions only. *)
 From Emmet Require Import lib.Base model.CssScan model.CssMatch model.CssTree.
